@@ -6,7 +6,7 @@ use super::*;
 
 static STATIC_DATA: [u8; 16] = [0, 1, 2, 3, 4, 5, 6, 7, 8, 9, 10, 11, 12, 13, 14, 15];
 
-fn any_static() -> (Bytes, usize, usize) {
+pub fn any_static() -> (Bytes, usize, usize) {
     let off: usize = kani::any();
     let len: usize = kani::any();
     kani::assume(off <= 16 && len <= 16 - off);
